@@ -90,7 +90,7 @@ func c15ApplyFault(r *cdpRunner, rnd *rand.Rand) string {
 	u := r.u
 	c := u.c
 	sink := sdk.AccAddress([]byte("verif-fault-sink----"))
-	switch k := rnd.Intn(9); k {
+	switch k := rnd.Intn(11); k {
 	case 0: // some prices inactive
 		n := 1 + rnd.Intn(4)
 		for i := 0; i < n; i++ {
@@ -153,6 +153,21 @@ func c15ApplyFault(r *cdpRunner, rnd *rand.Rand) string {
 			c.App.NewliqKeeper.SetLiquidationWhiteListing(c.Ctx(), w)
 		})
 		return "whitelisting-changed"
+	case 8, 9: // positions turn unsafe while exactly one of the feeds an auction needs is down
+		for _, as := range u.assets {
+			if as.Mint || as.Denom == "uusdc" || as.Denom == "adai" {
+				continue
+			}
+			p, _ := u.price(as)
+			as := as
+			r.env("fault", "crash "+as.Denom, func() { u.setPrice(as.Denom, p/3+1, true) })
+		}
+		down := u.byDenom[[]string{"ucmst", "ucmtw", "uatom", "ucmdx"}[rnd.Intn(4)]]
+		if down != nil {
+			p, _ := u.price(down)
+			r.env("fault", "price inactive "+down.Denom, func() { u.setPrice(down.Denom, p, false) })
+		}
+		return "unsafe-positions-with-one-feed-down"
 	default: // all prices crash together with a long time gap (restarts, interest)
 		for _, as := range u.assets {
 			if as.Mint {
@@ -197,6 +212,19 @@ func c15OtherUniverses(t *testing.T, rec *ev.Rec) {
 			}
 			exploreAtBoundary(w.c, rec, w.blockGap(), "liquidity", ev.Pick(1200, 15000))
 			w.committed = false
+		}
+		// every 150th height the begin blocker converts the accumulated swap fees of each app (it places orders):
+		// explore that block too
+		for (w.c.Header.Height+1)%150 != 0 && !panicked {
+			if w.rnd.Intn(3) == 0 {
+				w.randomOp()
+			}
+			w.nextBlock(6 * time.Second)
+		}
+		if !panicked {
+			exploreAtBoundary(w.c, rec, 6*time.Second, "liquidity-fee-conversion", ev.Pick(1200, 15000))
+			w.committed = false
+			rec.Count("fee_conversion_blocks_explored", 1)
 		}
 		w.c.Close()
 	}
